@@ -5,7 +5,8 @@ mkdir -p "$OUT"
 EVBAK=$(mktemp -d /tmp/evbak.XXXXXX); cp -a /verif/evidence/. "$EVBAK"/
 for P in "$@"; do
   name=$(basename $(dirname "$P"))-$(basename "$P" .diff); case "$P" in */mutants/*) name=$(basename "$P" .diff);; */seeded/*) name=$(basename $(dirname "$P"));; esac
-  cd /repo || exit 2
+  mkdir -p /verif/.target; exec 9>/verif/.target/build.lock; flock 9; export NLMC_LOCK_HELD=1
+cd /repo || exit 2
   git diff --quiet || { echo "/repo dirty" >&2; exit 2; }
   if ! git apply "$P" 2>/dev/null; then echo "$name: PATCH-DOES-NOT-APPLY" >> "$OUT/matrix.txt"; continue; fi
   suite=$(timeout 600 cargo test --offline 2>&1 | grep -cE "^test result: FAILED|^error")
